@@ -105,6 +105,9 @@ static void ring_round(size_t buf_len, uint64_t n, unsigned start)
 	VH_COUNT_N("ring_put_refusals(full)", prod_fail);
 	VH_COUNT_N("ring_get_empty", cons_empty);
 	VH_COUNT("ring_rounds");
+	if (vh_want_sample())
+		vh_sample("SPSC ring buf_len %zu start %u: %" PRIu64 " bytes handed over, %" PRIu64 " refused puts, %" PRIu64 " empty gets", buf_len,
+			  start % (unsigned)buf_len, n, prod_fail, cons_empty);
 	vh_distinct(vh_mix(vh_mix(0x51, buf_len), prod_fail * 1000003 + cons_empty));
 	free(store);
 }
@@ -201,6 +204,8 @@ static void mq_round(int depth, int senders, int per)
 	VH_COUNT_N("mq_messages_handed_over", (uint64_t)senders * (uint64_t)per);
 	VH_COUNT_N("mq_claims_refused(full)", nulls);
 	VH_COUNT("mq_rounds");
+	if (vh_want_sample())
+		vh_sample("MPSC queue depth %d, %d sender threads x %d messages: %" PRIu64 " claims refused while full", depth, senders, per, nulls);
 	vh_distinct(vh_mix(vh_mix(0x52, (uint64_t)depth * 100 + (uint64_t)senders), nulls));
 	/* free count at quiescence */
 	int got = 0;
@@ -361,6 +366,9 @@ static void fibre_round(int senders, int per)
 	VH_COUNT_N("fibre_scheduler_passes", passes);
 	VH_COUNT_N("fibre_claims_or_requests_refused", refused);
 	VH_COUNT("fibre_rounds");
+	if (vh_want_sample())
+		vh_sample("%d threads x %d events + wake-ups against the scheduler: %" PRIu64 " passes, %" PRIu64 " refused claims/requests, A saw %u/%u, B saw %u/%u",
+			  senders, per, passes, refused, seenA, needA, seenB, needB);
 	vh_distinct(vh_mix(vh_mix(0x53, (uint64_t)senders), passes));
 }
 
